@@ -10,7 +10,7 @@ from props import c03
 PROPERTY = 'C01'
 LEVEL = 'exploration'
 RULE = ('G1 programs (every statement/expression form and literal spelling, four layout regimes), the repository '
-        'snippets that calmjs accepts, an enumerated family of nested array literals with holes in every position, every reserved word as a dotted property name (and the other kinds of expression end) as the value of the last property of an object literal - the place where pretty output ends a line without a semicolon, programs made long by one sibling list of 1200 (thorough: 5000) statements / declarations / arguments / parameters / properties / elements / clauses / operands, and the adjacency product of C02 (slot templates x operand classes; every 12th case per quick run), x indentation strings drawn from text(" \\t", max 8) incl. empty. Oracle: '
+        'snippets that calmjs accepts, an enumerated family of nested array literals with holes in every position, every reserved word as a dotted property name (and the other kinds of expression end) as the value of the last property of an object literal - the place where pretty output ends a line without a semicolon, programs made long by one sibling list of 1200 (thorough: 5000) statements / declarations / arguments / parameters / properties / elements / clauses / operands, and the adjacency product of C02 (slot templates x operand classes; every 12th case per quick run), x indentation strings drawn from text(" \\t", max 8) incl. empty, or 9-40 characters long. Oracle: '
         'o = pretty_print(parse(src), ind); (a) calmjs re-parses o to the same canonical tree; (b) the independent '
         'reference parser R1 accepts o and reads the same tree; (c) pretty_print(parse(o), ind) == o byte for byte; (d) histories: a family of 330 member-access / sign / division programs over every literal spelling is printed in one process in drawn orders (forwards, backwards, again), each output judged by (a)-(c) and required to equal the first output for that program. '
         'Sources calmjs rejects are outside the quantifier, and sources on which calmjs and the reference parser already disagree belong to C03 (both counted, not judged). non-trivial = tree with >= 4 node kinds and '
@@ -145,7 +145,8 @@ def run_history(acc, opens, history, one=None):
 
 
 
-INDENTS = st.one_of(st.sampled_from(['  ', '    ', '\t', '', ' ']), st.text(alphabet=' \t', max_size=8))
+INDENTS = st.one_of(st.sampled_from(['  ', '    ', '\t', '', ' ']), st.text(alphabet=' \t', max_size=8),
+                    st.text(alphabet=' \t', min_size=9, max_size=40))
 
 
 def line_end_family():
